@@ -212,7 +212,8 @@ theorem accepted_spellings_handled :
     ∀ f ∈ Gen.Formulation.all, ∀ b ∈ Gen.Backend.all, Gen.construct f b = .ok () →
       Gen.accept f b = .ok () ∨ Gen.accept f b = .error .assertion ∨ b = .ksp := by decide
 
-/-- unknown option values are refused at construction -/
+/-- bookkeeping of the generated vocabulary (definitional: both lists are emitted from the same extraction): every back-end
+name the constructor's assert accepts is one of the documented ones -/
 theorem documented_backends_complete :
     ∀ b ∈ Gen.Backend.all, b ∈ Gen.documentedBackends := by decide
 
